@@ -30,4 +30,26 @@ func init() {
 		}
 		return r
 	}})
+	boundedChecks["C18"] = append(boundedChecks["C18"], &BoundedCheck{Name: "C18/fileset", Run: func(out *propOutcome) *BoundedResult {
+		depth := 4
+		if out.Tier == "thorough" {
+			depth = 6
+		}
+		r := &BoundedResult{Name: "C18/fileset",
+			Bound:      fmt.Sprintf("every cleaned absolute path over components {a,b} up to %d levels, plus \"\" and \"/\", against every set of one or two entries from {d, d/, d/*} for every directory d up to depth 3", depth),
+			Oracle:     "the documented cover relation (exact entry; d/ covers d and everything beneath; d/* covers the direct children of d only), written independently of the matcher",
+			Exhaustive: true,
+			Assumptions: []string{"IsInSetSmart (contract vocabulary inset/cov) agrees with the documented cover relation only as far as this bounded comparison shows"}}
+		t0 := time.Now()
+		o, err := runOverlayTest("runner/ptrace/filehandler", map[string]string{"bounded_fileset_test.go": "zz_gocv_bounded_fileset_test.go"}, "TestGocvBoundedFileSet", 10*time.Minute, []string{fmt.Sprintf("GOCV_DEPTH=%d", depth)})
+		r.Seconds = time.Since(t0).Seconds()
+		parseHarnessOutput(o, r)
+		if r.Evaluations == 0 {
+			r.Error = "harness produced no evaluations: " + firstLines(o, 12)
+			if err != nil {
+				r.Error += " (" + err.Error() + ")"
+			}
+		}
+		return r
+	}})
 }
